@@ -22,6 +22,8 @@ literal from tests/test_reproduce_simple.py or docs/*.md).
 | assert                 | `assert c;` newline body                         | assert; test_assert_expression |
 | comments               | own-line `# c` at item indent; ` # c` after `;`  | Comments; test_rebuild_function_call_with_comment |
 | blank lines            | single, between items                            | test_nix_function_definition_empty_lines_in_output_set |
+| closing comment        | own-line `# c` before `}`, optionally after one blank line | Comments ("comments are preserved"), blank-line rule |
+| head comment / blank   | `{ a }:` newline `# c` newline body; `}:` blank line body  | Function declaration + Comments; nixpkgs package heads |
 """
 
 from __future__ import annotations
@@ -55,6 +57,7 @@ class SetNode:
     rec: bool = False
     inline: bool = False           # `{ a = v; }` (only when it has exactly <= 1 plain entry)
     trailing: list[str] = field(default_factory=list)  # own-line comments before `}`
+    trailing_blank: bool = False   # one blank line before those comments
 
 
 @dataclass
@@ -63,6 +66,8 @@ class Doc:
     target: SetNode = field(default_factory=SetNode)
     header: list[str] = field(default_factory=list)
     final_newline: bool = True
+    head_comments: list[str] = field(default_factory=list)  # own-line comments after a `...:` head line
+    head_blank: bool = False       # one blank line after a `...:` head line
 
 
 def fmt_name(name: str) -> str:
@@ -87,6 +92,8 @@ def render_set(s: SetNode, indent: int, head: str = "") -> list[str]:
     lines = [f"{pad}{head}{opener}"]
     for e in s.entries:
         lines += render_entry(e, indent + 2)
+    if s.trailing and s.trailing_blank and s.entries:
+        lines.append("")
     for c in s.trailing:
         lines.append(" " * (indent + 2) + f"# {c}")
     lines.append(f"{pad}}}")
@@ -137,6 +144,11 @@ def render_entry(e: Entry, indent: int) -> list[str]:
     return lines + body
 
 
+def _last_head(doc: Doc):
+    heads = [w for w in doc.wrappers if w[0] == "formals"]
+    return heads[-1] if heads else None
+
+
 def render(doc: Doc) -> str:
     lines: list[str] = [f"# {h}" for h in doc.header]
     pending_head = ""
@@ -145,6 +157,11 @@ def render(doc: Doc) -> str:
         if kind == "formals":
             lines.append(pending_head + "{ " + ", ".join(w[1]) + " }:")
             pending_head = ""
+            if w is doc.wrappers[0] or True:
+                if doc.head_blank and w is _last_head(doc):
+                    lines.append("")
+                if doc.head_comments and w is _last_head(doc):
+                    lines += [f"# {c}" for c in doc.head_comments]
         elif kind == "lambda":
             pending_head += f"{w[1]}: "
         elif kind == "let":
@@ -211,8 +228,9 @@ def multi_line_value(r: random.Random):
 class DocGen:
     def __init__(self, rng: random.Random, *, comments: bool = True, rich_values: bool = True,
                  inherit: bool = True, quoted: bool = True, max_entries: int = 7, depth: int = 2,
-                 hyphen: bool = True):
+                 hyphen: bool = True, comment_rate: float = 1.0):
         self.hyphen = hyphen
+        self.comment_rate = comment_rate
         self.r = rng
         self.comments = comments
         self.rich = rich_values
@@ -281,21 +299,25 @@ class DocGen:
             self.decorate(e, first=not s.entries)
             s.entries.append(e)
             i += 1
-        if self.comments and s.entries and r.random() < 0.06:
+        if self.comments and s.entries and r.random() < 0.06 * self.comment_rate:
             s.trailing = [self.comment()]
+            if r.random() < 0.3:
+                s.trailing.append(self.comment())
+            s.trailing_blank = r.random() < 0.4
         return s
 
     def decorate(self, e: Entry, first: bool) -> None:
         r = self.r
         if not self.comments:
             return
-        if r.random() < 0.10:
+        cr = self.comment_rate
+        if r.random() < 0.10 * cr:
             e.above = [self.comment()]
             if r.random() < 0.2:
                 e.above.append(self.comment())
-        if r.random() < 0.07 and not e.value_lines:
+        if r.random() < 0.07 * cr and not e.value_lines:
             e.eol = self.comment()
-        if not first and r.random() < 0.10:
+        if not first and r.random() < 0.10 * max(1.0, cr / 2):
             e.blank_before = True
 
     def let_entries(self, k: int) -> list[Entry]:
@@ -343,4 +365,14 @@ class DocGen:
         if d.wrappers and d.wrappers[-1][0] == "call" and r.random() < 0.2:
             d.target.rec = True
         d.final_newline = True
+        # head idioms only when the formals head is directly followed by the body (set, let,
+        # with, assert on its own line): `{ a }:` newline [blank] [# comment] newline body
+        heads = [i for i, w in enumerate(d.wrappers) if w[0] == "formals"]
+        if heads and self.comments:
+            nxt = d.wrappers[heads[-1] + 1][0] if heads[-1] + 1 < len(d.wrappers) else "set"
+            if nxt in ("set", "let", "with", "assert"):
+                if r.random() < 0.12 * self.comment_rate:
+                    d.head_comments = [self.comment()]
+                if r.random() < 0.25:
+                    d.head_blank = True
         return d
